@@ -114,3 +114,47 @@ Lemma late_remainder_skipped r t left rest_of_frame fs s :
   Framing.framed (left ++ rest_of_frame) fs -> Forall (fun f => SS.tx_is t f = false) fs ->
   SS.ref_client_result r t (left ++ rest_of_frame ++ s) F.FinPending = SS.ref_client_result r t s F.FinPending.
 Proof. intros Hfr Hno. rewrite app_assoc. exact (other_tx_skipped r t _ fs s F.FinPending Hfr Hno). Qed.
+
+(* ---------- several connections: every connection is decided by its own bytes alone ---------- *)
+Section Conns.
+Variable cfg : T.config.
+Variable reqs : content.
+
+Definition xchg_ok (x : xchg) : Prop :=
+  let '(st, id, chunks, fi) := x in
+  (exists r t d, T.ph st = T.PInFlight r t d /\ T.rq_id r = id) /\ T.partial st = None /\
+  CT.request_wf (reqs id) /\ Forall (fun c => c <> []) chunks.
+Definition spec_xchg (x : xchg) : XS.exchange_fi :=
+  let '(st, id, chunks, fi) := x in (reqs id, tx_of_state st, concat chunks, fi).
+
+Lemma session_fi_ref : forall xs rd left, C05Proofs.tcp_represents rd left -> C05Proofs.is_tcp rd -> Forall xchg_ok xs ->
+  snd (session_fi cfg reqs rd xs) = XS.ref_session_fi left (map spec_xchg xs) /\ C05Proofs.is_tcp (fst (session_fi cfg reqs rd xs)).
+Proof.
+  induction xs as [|[[[st id] chunks] fi] xs IH]; intros rd left Hrep Htcp Hok; [split; [reflexivity|exact Htcp]|].
+  inversion Hok as [|x xs' Hx Hrest]; subst. destruct Hx as ((r & t & d & Hph & Hid) & Hp & Hwf & Hne).
+  cbn [session_fi map spec_xchg XS.ref_session_fi]. unfold tx_of_state. rewrite Hph. subst id.
+  pose proof (exchange_from_ref cfg reqs rd left st r t d chunks fi Hrep Hph Hp Hwf Hne) as E.
+  assert (Htcp1 : C05Proofs.is_tcp (fst (fst (exchange_from cfg reqs rd st chunks fi)))).
+  { unfold exchange_from. pose proof (C05Proofs.run_reader_st_tcp (Reader.run_fuel rd chunks) rd chunks fi Htcp) as H.
+    destruct (Reader.run_reader_st (Reader.run_fuel rd chunks) rd chunks fi) as [rd1 [items e]].
+    destruct (deliver cfg reqs st (Reader.frames_of items)) as [[s1 o1] d1]. destruct (T.run cfg s1 (end_events e)) as [s2 o2]. exact H. }
+  destruct (exchange_from cfg reqs rd st chunks fi) as [[rd1 e] res]. cbn [fst] in Htcp1. destruct E as (Hv & He & Hnext).
+  rewrite Hv.
+  destruct fi; try (split; [reflexivity|exact Htcp1]).
+  rewrite <- He. destruct e; try (split; [reflexivity|exact Htcp1]).
+  destruct (IH rd1 _ (Hnext eq_refl eq_refl) Htcp1 Hrest) as [I1 I2].
+  destruct (session_fi cfg reqs rd1 xs) as [rd2 vs]. cbn [fst snd] in *. rewrite I1. split; [reflexivity|exact I2].
+Qed.
+
+Theorem connections_ref : forall conns rd, C05Proofs.is_tcp rd -> Forall (Forall xchg_ok) conns ->
+  connections_from cfg reqs rd conns = XS.ref_connections (map (map spec_xchg) conns).
+Proof.
+  induction conns as [|c conns IH]; intros rd Htcp Hok; [reflexivity|].
+  inversion Hok as [|c' cs Hc Hrest]; subst. cbn [connections_from XS.ref_connections map].
+  assert (Hreset : Reader.reader_reset rd = Reader.reader_new Reader.KTcp) by (destruct rd as [[st|t st] b]; [reflexivity|destruct Htcp]).
+  rewrite Hreset.
+  destruct (session_fi_ref c (Reader.reader_new Reader.KTcp) [] C05Proofs.tcp_represents_fresh I Hc) as [S1 S2].
+  destruct (session_fi cfg reqs (Reader.reader_new Reader.KTcp) c) as [rd1 vs]. cbn [fst snd] in *.
+  rewrite S1. f_equal. exact (IH rd1 S2 Hrest).
+Qed.
+End Conns.
